@@ -16,3 +16,25 @@ Definition run_show (c : bytes * list bytes * list bytes * dtime * bool) : strin
   let s := run (session (eqb_bytes m HEAD) cs1 cs2 t lose) in
   String.concat "," (map show_fire (m_fired s)) ++ "|" ++ show_hex (m_delivered s) ++ "|"
   ++ String.concat "," (map show_reason (m_closed s)).
+
+(** protocol-layer cases: (method, starts transmitting?, ops) *)
+From C23 Require Import Protocol.
+
+Definition show_xfire (f : xfire) : string :=
+  match f with
+  | XInner i => show_fire i
+  | XGenFailed => "G" | XTransFailed => "T" | XCancelled => "C"
+  end.
+
+Definition run_show_proto (c : bytes * bool * list op) : string :=
+  let '(m, transmitting, ops) := c in
+  let s := play false (eqb_bytes m HEAD) ops pinit (if transmitting then xinit_transmitting else xinit_waiting) in
+  String.concat "," (map show_xfire (request_fired s)) ++ "|" ++ show_hex (m_delivered (x_in s)) ++ "|"
+  ++ String.concat "," (map show_reason (m_closed (x_in s))) ++ "|s" ++ show_nat (x_stops s).
+
+Inductive anycase :=
+| CSession (c : bytes * list bytes * list bytes * dtime * bool)
+| CProto (c : bytes * bool * list op).
+
+Definition run_show_any (c : anycase) : string :=
+  match c with CSession x => run_show x | CProto x => run_show_proto x end.
